@@ -1,4 +1,272 @@
+//! Request head: C02 (wire format under every buffer schedule), C16 (caller-added headers reach the
+//! wire), C17 (invalid requests are rejected before a byte is emitted).
 use super::Ctx;
-pub fn c02(_cx: &mut Ctx) {}
-pub fn c16(_cx: &mut Ctx) {}
-pub fn c17(_cx: &mut Ctx) {}
+use crate::exec::hx;
+use crate::rng::Rng;
+
+const URIS: [&str; 7] = ["http://a.test/", "http://a.test", "https://a.test:8443/p/q?x=1", "http://a.test/p", "https://b.test/d/e/f?", "http://A.test:80/p", "http://a.test/?q"];
+const XNAMES: [&str; 8] = ["x-a", "x-b", "accept", "user-agent", "via", "accept", "x-long-header-name-for-width", "cookie"];
+
+fn rand_value(r: &mut Rng) -> Vec<u8> {
+    let n = if r.chance(1, 10) { r.range(30, 90) } else { r.range(0, 12) };
+    (0..n).map(|_| match r.below(10) { 0 => 0x80 + r.below(128) as u8, 1 => b' ', 2 => b'\t', _ => 33 + r.below(94) as u8 }).collect()
+}
+
+pub struct ReqSpec {
+    pub method: &'static str,
+    pub version: &'static str,
+    pub uri: &'static str,
+    pub orig: Vec<(String, Vec<u8>)>,
+}
+
+impl ReqSpec {
+    pub fn line(&self) -> String {
+        let mut s = format!("{} {} {} {}", self.method, self.version, self.uri, self.orig.len());
+        for (k, v) in &self.orig {
+            s.push_str(&format!(" {} {}", k, hx(v)));
+        }
+        s
+    }
+}
+
+/// a request C17 accepts: standard method, matching version, at most one Host / Content-Length, framing
+/// only where the method takes a body
+fn gen_valid_req(r: &mut Rng, norig: usize) -> ReqSpec {
+    let method = *r.pick(&["GET", "HEAD", "POST", "PUT", "DELETE", "OPTIONS", "PATCH", "TRACE", "CONNECT", "GET", "POST"]);
+    let version = if matches!(method, "GET" | "HEAD" | "POST") && r.chance(1, 3) { "HTTP/1.0" } else { "HTTP/1.1" };
+    let uri = *r.pick(&URIS);
+    let mut orig: Vec<(String, Vec<u8>)> = vec![];
+    for _ in 0..norig {
+        orig.push((r.pick(&XNAMES).to_string(), rand_value(r)));
+    }
+    if r.chance(1, 3) {
+        let pos = r.below(orig.len() + 1);
+        orig.insert(pos, ("host".into(), r.pick(&[&b"h.test"[..], &b"other.example:81"[..]]).to_vec()));
+    }
+    if matches!(method, "POST" | "PUT" | "PATCH") {
+        match r.below(4) {
+            0 => { let pos = r.below(orig.len() + 1); orig.insert(pos, ("content-length".into(), r.pick(&[&b"0"[..], &b"7"[..], &b"123456"[..]]).to_vec())); }
+            1 => { let pos = r.below(orig.len() + 1); orig.insert(pos, ("transfer-encoding".into(), r.pick(&[&b"chunked"[..], &b"Chunked"[..]]).to_vec())); }
+            _ => {}
+        }
+    }
+    if r.chance(1, 6) { orig.push(("expect".into(), b"100-continue".to_vec())); }
+    if r.chance(1, 8) { orig.push(("connection".into(), b"close".to_vec())); }
+    ReqSpec { method, version, uri, orig }
+}
+
+/// drive the flow (in prepare) through an exchange answered by a redirect and follow it
+fn hop(cx: &mut Ctx, r: &mut Rng, status: u16, location: &str) -> bool {
+    cx.op("proceed");
+    cx.op("write 65536");
+    let res = cx.op("proceed");
+    if res.starts_with("state await100") { cx.op("proceed"); }
+    if cx.rec.state() == "sendBody" {
+        let chunked = cx.op("chunked?") == "bool true";
+        if chunked { cx.op("bwrite - 100"); } else {
+            // finish a sized body by reporting it as written directly
+            for n in [123456usize, 7, 0] { if cx.op("canproceed") == "bool true" { break; } cx.op(&format!("direct {}", n)); }
+        }
+        cx.op("proceed");
+    }
+    if cx.rec.state() != "recvResponse" { return false; }
+    let head = format!("HTTP/1.1 {} R\r\nLocation: {}\r\nContent-Length: 0\r\n\r\n", status, location);
+    cx.op(&format!("resp {}", hx(head.as_bytes())));
+    cx.op("proceed");
+    if cx.rec.state() != "redirect" { return false; }
+    let res = cx.op(&format!("follow {}", r.pick(&["never", "samehost"])));
+    res.starts_with("flow ")
+}
+
+/// write the head with a schedule of capacities; returns when the flow can proceed or gets stuck
+fn write_schedule(cx: &mut Ctx, caps: &mut dyn FnMut() -> usize, extra_after: usize) {
+    let mut stuck = 0;
+    for _ in 0..400 {
+        let res = cx.op(&format!("write {}", caps()));
+        if cx.op("canproceed") == "bool true" { break; }
+        if res.starts_with("fault") { stuck += 1; if stuck >= 3 { break; } }
+    }
+    for _ in 0..extra_after {
+        cx.op(&format!("write {}", caps()));
+        cx.op("canproceed");
+    }
+}
+
+pub fn c02(cx: &mut Ctx) {
+    // (a) fixed-size buffer sweep on a few shaped requests: hits |line|-1, |line|, |line|+1 for every line
+    let shaped: Vec<(&str, &str, &str, Vec<(&str, &[u8])>, Vec<(&str, &[u8])>, bool)> = vec![
+        ("GET", "HTTP/1.1", "http://a.test/page", vec![("x-tag", b"v")], vec![], false),
+        ("GET", "HTTP/1.1", "http://a.test/page", vec![("accept", b"a"), ("accept", b"bb"), ("via", b"1"), ("via", b"2"), ("via", b"3")], vec![("x-added", b"1")], false),
+        ("POST", "HTTP/1.1", "http://a.test/p?q=1", vec![("content-length", b"5")], vec![], false),
+        ("POST", "HTTP/1.0", "http://a.test", vec![], vec![("cookie", b"a=b")], false),
+        ("PUT", "HTTP/1.1", "https://a.test:8443/x", vec![("host", b"h.test"), ("transfer-encoding", b"chunked")], vec![], false),
+        ("GET", "HTTP/1.1", "http://a.test/d", vec![], vec![], true),
+        ("HEAD", "HTTP/1.1", "http://a.test/d", vec![("content-length", b"3")], vec![("z", b"\x80\xff")], true),
+    ];
+    for (m, v, u, orig, added, despite) in &shaped {
+        let top = if cx.thorough { 140 } else { 100 };
+        for cap in 0..=top {
+            cx.case("sweep");
+            cx.rec.new_flow(&format!("{} {} {} {}", m, v, u, super::hdrs(orig)));
+            for (k, val) in added { cx.op(&format!("hdr {} {}", k, hx(val))); }
+            if *despite { cx.op("despite"); }
+            cx.op("proceed");
+            write_schedule(cx, &mut || cap, 2);
+            cx.op("proceed");
+        }
+    }
+    // (b) random requests, random schedules, redirect depth 0..3
+    let n = if cx.thorough { 6000 } else { 700 };
+    for i in 0..n {
+        let mut r = cx.case("rnd");
+        let norig = if i % 17 == 0 { r.range(20, 60) } else { r.below(6) };
+        let q = gen_valid_req(&mut r, norig);
+        if cx.rec.new_flow(&q.line()) != "ok" { continue; }
+        let depth = if i % 3 == 0 { r.below(4) } else { 0 };
+        let mut ok = true;
+        for _ in 0..depth {
+            let loc = *r.pick(&["/next", "http://b.test/other?x=1", "../up", "https://a.test/s", "?only=query"]);
+            let st = *r.pick(&[301u16, 302, 303, 307, 308]);
+            if !hop(cx, &mut r, st, loc) { ok = false; break; }
+        }
+        if !ok || cx.rec.state() != "prepare" { continue; }
+        let nadd = if i % 23 == 0 { r.range(20, 60) } else { r.below(4) };
+        for _ in 0..nadd {
+            let name = *r.pick(&["x-c", "x-d", "cookie", "authorization", "accept", "x-c"]);
+            cx.op(&format!("hdr {} {}", name, hx(&rand_value(&mut r))));
+        }
+        let despite = !matches!(q.method, "POST" | "PUT" | "PATCH") && r.chance(1, 8);
+        if despite {
+            if r.chance(1, 2) { cx.op(&format!("hdr content-length {}", hx(b"4"))); }
+            cx.op("despite");
+        }
+        cx.op("proceed");
+        let mode = r.below(5);
+        let fixed = r.range(0, 90);
+        let mut rr = Rng(r.next() | 1);
+        let mut capf = move || -> usize {
+            match mode { 0 => 65536, 1 => fixed, 2 => rr.below(100), 3 => *rr.pick(&[0usize, 1, 17, 18, 19, 20, 25, 30, 40, 64, 200]), _ => 20 + rr.below(30) }
+        };
+        write_schedule(cx, &mut capf, r.below(3));
+        cx.op("proceed");
+    }
+    // (c) single-call API
+    for i in 0..(if cx.thorough { 600 } else { 80 }) {
+        let mut r = cx.case("call");
+        let k4 = r.below(4);
+        let q = gen_valid_req(&mut r, k4);
+        let with_body = matches!(q.method, "POST" | "PUT" | "PATCH");
+        let mut args = q.line();
+        let _ = i;
+        if cx.rec.new_call(if with_body { "body" } else { "nobody" }, &std::mem::take(&mut args)) != "ok" { continue; }
+        let cap = *r.pick(&[0usize, 10, 20, 30, 45, 1000]);
+        for _ in 0..60 {
+            let res = if with_body { cx.op(&format!("cbwrite 6162 {}", cap)) } else { cx.op(&format!("cwrite {}", cap)) };
+            if res.starts_with("fault") { break; }
+            if !with_body && cx.op("cfinished") == "bool true" { break; }
+            if with_body && !res.starts_with("bytes 0") { break; }
+        }
+        cx.op("cfinished");
+    }
+}
+
+pub fn c16(cx: &mut Ctx) {
+    let names = ["cookie", "authorization", "content-length", "host", "connection", "x-added", "x-added", "accept", "transfer-encoding", "expect"];
+    let n = if cx.thorough { 5000 } else { 600 };
+    for i in 0..n {
+        let mut r = cx.case("add");
+        let k5 = r.below(5);
+        let mut q = gen_valid_req(&mut r, k5);
+        if r.chance(1, 2) { q.orig.push(("cookie".into(), b"old=1".to_vec())); }
+        if r.chance(1, 2) { q.orig.push(("authorization".into(), b"Basic b2xk".to_vec())); }
+        if cx.rec.new_flow(&q.line()) != "ok" { continue; }
+        let depth = r.below(4);
+        let mut ok = true;
+        for _ in 0..depth {
+            let loc = *r.pick(&["/next", "http://b.test/other", "https://a.test/s", "x/y"]);
+            let st = *r.pick(&[301u16, 302, 303, 307, 308]);
+            if !hop(cx, &mut r, st, loc) { ok = false; break; }
+        }
+        if !ok || cx.rec.state() != "prepare" { continue; }
+        let nadd = if i % 19 == 0 { r.range(30, 60) } else { r.below(5) };
+        for _ in 0..nadd {
+            let name = *r.pick(&names);
+            let val: Vec<u8> = match name {
+                "content-length" => b"3".to_vec(),
+                "transfer-encoding" => b"chunked".to_vec(),
+                "expect" => b"100-continue".to_vec(),
+                "connection" => r.pick(&[&b"close"[..], &b"keep-alive"[..]]).to_vec(),
+                "host" => b"added.test".to_vec(),
+                _ => { let mut v = rand_value(&mut r); if v.is_empty() { v = b"v".to_vec(); } v }
+            };
+            cx.op(&format!("hdr {} {}", name, hx(&val)));
+        }
+        if r.chance(1, 6) { cx.op("despite"); }
+        cx.op("proceed");
+        let cap = if r.chance(1, 3) { r.range(40, 120) } else { 65536 };
+        write_schedule(cx, &mut || cap, 0);
+        cx.op("proceed");
+    }
+}
+
+const VERSIONS: [&str; 5] = ["HTTP/0.9", "HTTP/1.0", "HTTP/1.1", "HTTP/2.0", "HTTP/3.0"];
+
+pub fn c17(cx: &mut Ctx) {
+    let hosts: [&[(&str, &[u8])]; 4] = [&[], &[("host", b"h.test")], &[("host", b"h.test"), ("host", b"i.test")], &[("host", b"h\xfft")]];
+    let cls: [&[(&str, &[u8])]; 8] = [&[], &[("content-length", b"0")], &[("content-length", b"7")], &[("content-length", b"7"), ("content-length", b"7")], &[("content-length", b"-1")], &[("content-length", b"abc")], &[("content-length", b"+5")], &[("content-length", b"\xe9")]];
+    let tes: [&[(&str, &[u8])]; 3] = [&[], &[("transfer-encoding", b"chunked")], &[("transfer-encoding", b"\xff")]];
+    let mut r0 = Rng::for_case(cx.seed, 171717);
+    for v in VERSIONS {
+        for m in super::flowgen::METHODS {
+            for (hi, h) in hosts.iter().enumerate() {
+                for (ci, c) in cls.iter().enumerate() {
+                    for (ti, t) in tes.iter().enumerate() {
+                        for despite in [false, true] {
+                            for api in 0..3 {
+                                // the full product is ~65k requests; quick runs a third of it, always keeping the accepted corner
+                                let keep = cx.thorough || (hi + ci + ti == 0) || r0.below(3) == 0;
+                                if !keep { continue; }
+                                if api > 0 && despite { continue; }
+                                // where the headers live: all original, or the framing ones added by the caller
+                                let added_split = (hi + ci + ti + api) % 2 == 1;
+                                let mut orig: Vec<(&str, &[u8])> = vec![];
+                                let mut added: Vec<(&str, &[u8])> = vec![];
+                                orig.extend_from_slice(h);
+                                if added_split && api == 0 { added.extend_from_slice(c); added.extend_from_slice(t); } else { orig.extend_from_slice(c); orig.extend_from_slice(t); }
+                                cx.case("req");
+                                let args = format!("{} {} http://a.test/x {}", m, v, super::hdrs(&orig));
+                                match api {
+                                    0 => {
+                                        if cx.rec.new_flow(&args) != "ok" { continue; }
+                                        for (k, val) in &added { cx.op(&format!("hdr {} {}", k, hx(val))); }
+                                        if despite { cx.op("despite"); }
+                                        cx.op("proceed");
+                                        cx.op("write 1000");
+                                        cx.op("canproceed");
+                                        cx.op("write 1000");
+                                        cx.op("write 10");
+                                        cx.op("canproceed");
+                                        cx.op("proceed");
+                                    }
+                                    1 => {
+                                        if cx.rec.new_call("nobody", &args) != "ok" { continue; }
+                                        cx.op("cwrite 1000");
+                                        cx.op("cfinished");
+                                        cx.op("cwrite 1000");
+                                        cx.op("cfinished");
+                                    }
+                                    _ => {
+                                        if cx.rec.new_call("body", &args) != "ok" { continue; }
+                                        cx.op("cbwrite 61 1000");
+                                        cx.op("cbwrite 61 1000");
+                                        cx.op("cfinished");
+                                    }
+                                }
+                            }
+                        }
+                    }
+                }
+            }
+        }
+    }
+}
